@@ -62,7 +62,11 @@ LEVEL_TEXT = ('Every spec of a complete finite box of spec shapes is parsed by t
               'names and the results-file round trip are finite sets and are swept completely. Defects of this '
               'property are shape dependent (a dropped axis, zip for product, a name bound to the wrong class), '
               'so a complete sweep of small shapes decides it inside the box.')
-LEVEL_NOTE = ('Near-identical axis values and code x decoder pairings outside allowed_codes are part of the '
+LEVEL_NOTE = ('Decoder parameters that a constructor turns into derived objects are read back where they are '
+              'used (table _POINT_OF_USE: pymatching edge weights and which matchers exist for MatchingDecoder, '
+              'also as a sub-decoder of the sweep / X-cube decoders; ldpc max_iter / osd_order / bp_method for '
+              'BP-OSD; plain attributes for the rest); the default weights (none requested) are C09\'s. '
+              'Near-identical axis values and code x decoder pairings outside allowed_codes are part of the '
               'alphabet (nothing may be merged or skipped on the strength of a printed label or a GUI hint); code '
               'labels of the family sizes never collide, so no code-parameter variant exists to enumerate. '
               'Composite decoders (any decoder holding BaseDecoder sub-objects: sweep+matching, X-cube): every '
@@ -97,7 +101,11 @@ RULE = ('registry: every key of the three registries and every exported code cla
         'axes: every near-identical value is its own requested element. pairing: every registered code (smallest '
         'family size) x registered decoder x 3 noise directions x decoder parameter candidates whose decoder '
         'constructs when called directly: a ranges spec naming the pairing must build it for both rates, whether '
-        'or not the code is in the decoder\'s allowed_codes; distinct = distinct spec JSON')
+        'or not the code is in the decoder\'s allowed_codes; distinct = distinct spec JSON. structured: per 2-D '
+        'code x 2 sizes x 3 containers: MatchingDecoder with explicit weights (X and Z vectors different at every '
+        'qubit, as lists; single set, range of two sets, set next to the default) x error_type in {absent, X, Z} x '
+        '{1, 2} noise sets, and BP-OSD parameter sets: the edge weights loaded in matcher_x / matcher_z and the '
+        'parameters loaded in the ldpc objects must be the requested ones')
 ASSUMPTIONS = [
     'n = 2ab (Toric2D), 2ab-a-b+1 (Planar2D), ab (RotatedPlanar2D), 3abc (Toric3D) as reference qubit counts',
     'omitted lattice lengths default to L_x (L_z only for 3-D classes), omitted decoder parameters default to '
@@ -198,6 +206,14 @@ PAIR_NOISE = [{'r_x': 1, 'r_y': 0, 'r_z': 0}, {'r_x': 0, 'r_y': 0, 'r_z': 1},
               {'r_x': 1 / 3, 'r_y': 1 / 3, 'r_z': 1 / 3}]
 PAIR_DECODER_PARAMS = {'MatchingDecoder': [{}, {'error_type': 'X'}, {'error_type': 'Z'}]}
 PAIR_RATES = [0.02, 0.05]
+
+# structured decoder parameters: MatchingDecoder `weights` = [per-qubit weights for X errors, for Z errors], as
+# JSON carries them (lists), X and Z vectors different at every qubit; ranges of two such sets; with and without
+# `error_type`. BP-OSD parameter sets on the same codes are followed into the ldpc objects.
+STRUCT_CODES = ['Toric2DCode', 'Planar2DCode', 'RotatedPlanar2DCode']
+STRUCT_SIZES = [[2, 3], [3, 3]]
+STRUCT_WEIGHTS = [(lambda q: 1 + 0.01 * q, lambda q: 3 + 0.02 * q),
+                  (lambda q: 5 + 0.03 * q, lambda q: 0.5 + 0.005 * q)]
 
 # roundtrip part
 _RT_NOISE = [{'r_x': 1, 'r_y': 0, 'r_z': 0},
@@ -531,6 +547,10 @@ def cases(tier, seed):
                 out.append({'part': 'variants', 'family': fi, 'axis': axis})
     for name in F.CLASSES:
         out.append({'part': 'pairing', 'cls': name})
+    # structured (array-valued) decoder parameters and parameters handed on to derived objects
+    for name in STRUCT_CODES:
+        for size in STRUCT_SIZES:
+            out.append({'part': 'structured', 'cls': name, 'size': size})
     # sessions: specs in different parameter forms parsed one after the other in ONE process
     for fi in range(b['families']):
         # (an asymmetric subset of the sizes after the full set: a mix-up between two sizes of the full
@@ -558,6 +578,8 @@ def eval_case(case):
         return eval_variants(case)
     if case['part'] == 'pairing':
         return eval_pairing(case)
+    if case['part'] == 'structured':
+        return eval_structured(case)
     return eval_expand(case)
 
 
@@ -868,6 +890,7 @@ def eval_roundtrip(case):
         # effectively carry the decoder's parameters
         for which, d in (('original', m['dec']), ('reinstantiated', dec2)):
             cprob, unreq = composite_problems(d)
+            cprob = cprob + point_of_use_problems(d, deep=True)
             if unreq:
                 _bump(res, 'composite_decoders_checked')
             for kind, kf, det in cprob:
@@ -1006,6 +1029,76 @@ def _effective_state(dec):
     return {'params': canon(dec.params), 'attrs': attrs, 'rng': rngs}
 
 
+# ---- parameters consumed by the constructor into derived objects: checked where they are used
+
+def _matching_point_of_use(dec, deep):
+    """MatchingDecoder: `error_type` decides which matchers exist; explicit `weights` = (weights for X errors,
+    weights for Z errors) must be the edge weights loaded in the pymatching graph of matcher_x / matcher_z (every
+    edge carries the requested weight of the qubit it flips)."""
+    out = []
+    params = dec.params
+    et = params.get('error_type')
+    have = [hasattr(dec, 'matcher_x'), hasattr(dec, 'matcher_z')]
+    want = [et in (None, 'X'), et in (None, 'Z')]
+    if have != want:
+        out.append(('error_type', {'error_type': et, 'has_matcher_x': have[0], 'has_matcher_z': have[1]}))
+    w = params.get('weights')
+    if w is not None:
+        for label, attr, vec in (('X', 'matcher_x', w[0]), ('Z', 'matcher_z', w[1])):
+            m = getattr(dec, attr, None)
+            if m is None:
+                continue
+            vec = [float(x) for x in np.asarray(vec).ravel()]
+            bad = []
+            for (_u, _v, a) in m.edges():
+                for q in sorted(a.get('fault_ids', ())):
+                    if q >= len(vec) or abs(a['weight'] - vec[q]) > 1e-9 * max(1.0, abs(vec[q])):
+                        bad.append([int(q), float(a['weight']), vec[q] if q < len(vec) else None])
+            if bad:
+                out.append(('weights[%s]' % label, {'matcher': attr, 'n_edges_with_other_weight': len(bad),
+                                                     'first_qubit_loaded_requested': bad[0]}))
+    return out
+
+
+def _bposd_point_of_use(dec, deep):
+    """BeliefPropagationOSDDecoder hands its parameters to the ldpc decoders when these are initialised."""
+    if not deep:
+        return []
+    out = []
+    params = dec.params
+    with _quiet():
+        if not getattr(dec, '_initialized', False):
+            dec.initialize_decoders()
+    for attr in ('x_decoder', 'z_decoder', 'decoder'):
+        ld = getattr(dec, attr, None)
+        if ld is None or not hasattr(ld, 'max_iter'):
+            continue
+        got = {'max_bp_iter': ld.max_iter, 'osd_order': ld.osd_order, 'bp_method': ld.bp_method}
+        diff = sorted(k for k in got if k in params and canon(got[k]) != canon(params[k]))
+        if diff:
+            out.append((','.join(diff), {'ldpc_object': attr, 'loaded': canon(got),
+                                         'requested': canon({k: params[k] for k in got if k in params})}))
+    return out
+
+
+_POINT_OF_USE = {'MatchingDecoder': _matching_point_of_use,
+                 'BeliefPropagationOSDDecoder': _bposd_point_of_use}
+
+
+def point_of_use_problems(dec, deep=False, path='', depth=0):
+    """the table above applied to a decoder and, recursively, to every sub-decoder it holds"""
+    problems = []
+    fn = _POINT_OF_USE.get(type(dec).__name__)
+    if fn is not None:
+        for what, det in fn(dec, deep):
+            problems.append(('decoder-parameter-not-in-effect-at-point-of-use',
+                             {'decoder_cls': type(dec).__name__, 'sub': path or None, 'parameter': what}, det))
+    if depth < 3 and _HAS_SUBS.get(type(dec)) is not False:
+        for sp, sub in _subdecoders(dec):
+            problems += point_of_use_problems(sub, deep, (path + '.' + sp).lstrip('.'), depth + 1)
+    return problems
+
+
 def composite_problems(dec):
     """-> (problems, unrequested) for one built decoder.
     problems: [(kind, key fields, detail)].  For every sub-decoder and every parameter of `dec` that the
@@ -1053,7 +1146,7 @@ def composite_problems(dec):
     return problems, unrequested
 
 
-def composite_batch_problems(sims):
+def composite_batch_problems(sims, deep=False):
     """composite_problems over the decoders of one batch + : a sub-decoder parameter the decoder does not expose
     must not change with the decoder parameters the spec requests (same code, noise and rate)."""
     problems, groups, n = [], {}, 0
@@ -1061,6 +1154,7 @@ def composite_batch_problems(sims):
         dec = s.decoder
         pr, unreq = composite_problems(dec)
         problems += pr
+        problems += point_of_use_problems(dec, deep)
         if unreq:
             n += 1
         for path, val in unreq.items():
@@ -1459,7 +1553,7 @@ def _generic_spec(container, cname, code_elems, noise_elems, dname, dlist, rates
     return {'ranges': [rng, rng2]}, product + product2
 
 
-def _check_spec(res, all_v, tmp, tag, spec, product, key0):
+def _check_spec(res, all_v, tmp, tag, spec, product, key0, deep=False):
     """parse `spec` by read_input_json and read_input_dict and compare the built simulations, as a multiset,
     with the reference product."""
     from panqec.simulation import read_input_dict, read_input_json
@@ -1479,7 +1573,7 @@ def _check_spec(res, all_v, tmp, tag, spec, product, key0):
             sims = list(batch._simulations)
             cache = {}
             got = collections.Counter(observe(x, cache) for x in sims)
-            cprob, _n = composite_batch_problems(sims)
+            cprob, _n = composite_batch_problems(sims, deep)
         except Exception as exc:
             status.append('raises:' + type(exc).__name__)
             all_v.append({'key': dict(key0, kind='raises', path=pname, exc=type(exc).__name__, where=_where(exc)),
@@ -1592,3 +1686,50 @@ def eval_pairing(case):
     finally:
         shutil.rmtree(tmp, ignore_errors=True)
     return _finish(res, all_v, digests, 'pairing_specs')
+
+
+# --------------------------------------------------------------------------------------------
+# part 7: structured decoder parameters, followed to where they are used
+
+def eval_structured(case):
+    name, size = case['cls'], list(case['size'])
+    res = _new_res()
+    all_v, digests = [], set()
+    a, b = size
+    n = _REF_N[name](a, b, None)
+    wsets = [[[fx(q) for q in range(n)], [fz(q) for q in range(n)]] for fx, fz in STRUCT_WEIGHTS]
+    dlists = []
+    for et in (None, 'X', 'Z'):
+        base = {} if et is None else {'error_type': et}
+        dlists.append(('weights', et, [dict(base, weights=wsets[0])]))
+        dlists.append(('weights-range', et, [dict(base, weights=wsets[0]), dict(base, weights=wsets[1])]))
+        dlists.append(('weights-and-default', et, [dict(base, weights=wsets[1]), dict(base)]))
+    tmp = tempfile.mkdtemp(prefix='c13_', dir='/dev/shm' if os.path.isdir('/dev/shm') else None)
+    try:
+        i = 0
+        for container in ('ranges', 'ranges-list', 'runs'):
+            for form, et, dlist in dlists:
+                for noise in (_NOISE[1:2], _NOISE[:2]):
+                    i += 1
+                    spec, product = _generic_spec(container, name, [size], noise, 'MatchingDecoder', dlist,
+                                                  [0.1, 0.2])
+                    key0 = {'part': 'structured', 'cls': name, 'size': size, 'decoder': 'MatchingDecoder',
+                            'container': container, 'decoder_parameter_form': form, 'error_type': et,
+                            'n_noise': len(noise)}
+                    status, dg = _check_spec(res, all_v, tmp, 's%d' % i, spec, product, key0, deep=True)
+                    digests.add(dg)
+                    res['outcomes'].append('struct|%s|%s|%s' % (form, et, ','.join(status)))
+            for dlist in ([FAMILIES[0]['dsets'][1]], list(FAMILIES[0]['dsets']), [{'bp_method': 'product_sum'}]):
+                i += 1
+                spec, product = _generic_spec(container, name, [size], _NOISE[:2], 'BeliefPropagationOSDDecoder',
+                                              dlist, [0.1, 0.2])
+                key0 = {'part': 'structured', 'cls': name, 'size': size, 'decoder': 'BeliefPropagationOSDDecoder',
+                        'container': container, 'decoder_parameter_form': 'followed-into-ldpc',
+                        'n_decoder_sets': len(dlist)}
+                status, dg = _check_spec(res, all_v, tmp, 's%d' % i, spec, product, key0, deep=True)
+                digests.add(dg)
+                res['outcomes'].append('struct|bposd|%s' % ','.join(status))
+        res['samples'].append({'cls': name, 'size': size, 'specs': i})
+    finally:
+        shutil.rmtree(tmp, ignore_errors=True)
+    return _finish(res, all_v, digests, 'structured_parameter_specs')
